@@ -94,10 +94,6 @@ class Rules(FDE.Rules):
         Helpers = (NodeCount, NodesWorlds, WorldIndex)
 
         def _get_node_targets(self, node, branch, /):
-            # Only count least-applied-to nodes
-            if not self[NodeCount].isleast(node, branch):
-                return
-
             s = self.sentence(node)
             si = s.lhs
             if self.new_negated(self.negated):
@@ -122,8 +118,6 @@ class Rules(FDE.Rules):
         def score_candidate(self, target, /) -> float:
             if target.get('flag'):
                 return 1.0
-            # We are already restricted to least-applied-to nodes by
-            # ``_get_node_targets()``
             # Check for closure
             if self[AdzHelper].closure_score(target) == 1:
                 return 1.0
